@@ -166,4 +166,15 @@ def addresseesFrom (k : Nat) : List Node → Node → List Nat
 
 def addressees (ids : List Node) (target : Node) : List Nat := addresseesFrom 0 ids target
 
+/-! ## a send to a socket of this very node: who owns the bytes
+
+`WriteTo` returns as soon as the reader's goroutine has *taken* the message; the reader copies the payload into its
+own buffer a moment later.  In between the caller is free to reuse the buffer it passed to `WriteTo`
+(`net.PacketConn` promises that, and quic-go does it).  `copyOnSend` (regenerated fact): the message carries its own
+copy of the payload. -/
+
+/-- what the reader copies out: the message's own copy of what was sent, or the caller's buffer as it is at that
+moment (`after`: what the caller has written into it since) -/
+def localRead (copyOnSend : Bool) (sent after : Bytes) : Bytes := if copyOnSend then sent else after
+
 end Receptor.Forward
